@@ -426,6 +426,29 @@ def unknown_types(ctx):
     return n
 
 
+def odd_time_texts(ctx):
+    """The time word of a message text, written the odd ways a number can be written: the outcome is a message with a real
+    time or one of the three allowed exception classes - never another exception, never a time that is no real number."""
+    import mido
+    n = 0
+    words = ('1/0', '0/0', '-1/0', '1/2', '3/4', '1e999', '-1e999', 'nan', 'inf', '1_0', '0x10', '0b1', '1j', '1+2j', '٣', '1e-400', '--1',
+             '1.', '.5', '.', 'e5', '1e', 'None', 'True', '1/', '/1', '1//2', '1 /2', '2**3', '(1)', '1,5', "'1'", '1' * 400, '0' * 400 + '.5')
+    for w in words:
+        for entry in (lambda t: Message.from_str(t), lambda t: mido.parse_string(t), lambda t: list(mido.parse_string_stream([t]))):
+            case = {'kind': 'odd-time-text', 'word': w[:40]}
+            try:
+                r = entry(f'note_on channel=1 note=2 time={w}')
+                msgs = [r] if isinstance(r, Message) else [m for m, err in r if m is not None]
+                ok = all(isinstance(m.time, (int, float)) and not isinstance(m.time, bool) and midi1.valid(m) is None for m in msgs)
+                ctx.check('state valid after accept', ok, 'odd-time-text:accepted-invalid', case, [repr(m.time) for m in msgs])
+            except OKEXC:
+                ctx.count('out-of-domain rejected')
+            except Exception as exc:
+                ctx.check('exception class', False, f'odd-time-text:{type(exc).__name__}', case, f'{type(exc).__name__}: {exc}')
+            n += 1
+    return n
+
+
 def history(ctx, t, seed, steps):
     """Random accepted/rejected assignments on ONE object with a shadow model."""
     rng = random.Random(seed)
@@ -550,6 +573,7 @@ def run(ctx):
             n += k
     if ctx.shard == ctx.nshards - 1:
         n += unknown_types(ctx)
+        n += odd_time_texts(ctx)
     nh = 40 if ctx.tier == 'quick' else 3000
     for j in range(nh):
         for t in midi1.TYPES:
@@ -591,6 +615,9 @@ def cold_jobs():
 
 
 def replay(ctx, case):
+    if case.get('kind') == 'odd-time-text':
+        odd_time_texts(ctx)
+        return
     k = case['kind']
     if k == 'cold':
         from .. import coldstart
